@@ -421,7 +421,12 @@ impl<'a> SsaAnalysisState<'a> {
         }
       }
       pattern::MatchingPattern::Id(id, ()) => self.use_id(&id.name, id.loc, false),
-      pattern::MatchingPattern::Wildcard { .. } | pattern::MatchingPattern::Or { .. } => {}
+      pattern::MatchingPattern::Wildcard { .. } => {}
+      pattern::MatchingPattern::Or { patterns, .. } => {
+        for p in patterns {
+          self.visit_matching_pattern_bindings_as_uses(p);
+        }
+      }
     }
   }
 
